@@ -63,7 +63,11 @@ def with_memory_layout(arr):
     if arr.ndim == 0 or arr.size == 0 or arr.dtype.kind in "US":
         return arr
     import zlib
-    k = zlib.crc32(arr.tobytes() + str(arr.shape).encode()) % 7
+    k = zlib.crc32(arr.tobytes() + str(arr.shape).encode()) % 8
+    if k == 6:
+        arr = arr.copy()
+        arr.setflags(write=False)        # a write-protected array (as numpy hands out for data read from a binary file)
+        return arr
     if k == 5 and arr.dtype.itemsize > 1:
         return arr.astype(arr.dtype.newbyteorder())      # same values, non-native byte order (as read from a big-endian file)
     if k == 1 and arr.ndim >= 2:
